@@ -10,7 +10,7 @@ from .. import alg
 from ..alg import E, lift, ZERO, ONE, Sqrt
 from ..interp import Interp, RaiseSig
 from ..values import symarr, mkarr
-from .common import public, defloc, short, ident, ident_arr, call_public, Abort
+from .common import explore_exits, public, defloc, short, ident, ident_arr, call_public, Abort
 
 LEVEL = "other"
 AXES = {"a": 0, "b": 1, "c": 2}
@@ -83,10 +83,17 @@ def run(ctx):
                 for o in out:
                     used |= {a for a in alg.atoms_of(lift(o), deep=False) if a.kind == "fn:eigvalsh"}
                 got_tri = {a.args[0] for a in used}
-                ctx.ob("C13.scatter", f"symmetry_pgr:{letter}", same_tris(got_tri, tri), f"eigen-solver argument differs from sum_g a a^T of row {row}", loc)
+                if used:
+                    ctx.ob("C13.scatter", f"symmetry_pgr:{letter}", same_tris(got_tri, tri), f"eigen-solver argument differs from sum_g a a^T of row {row}", loc)
+                else:
+                    ctx.observe(f"symmetry_pgr({letter}) does not call a library eigen-solver; its values are decided by C13.pgr against the eigenvalues of sum_g a a^T alone")
                 for nm, o, r in zip("PGR", out, ref):
                     ident(ctx, "C13.pgr", f"{letter}:{nm}", o, r, loc)
                 ident(ctx, "C13.pgr", f"{letter}:P+G+R", lift(out[0]) + lift(out[1]) + lift(out[2]), ONE, loc)
+                Ig = Interp(ctx.program)
+                Ig.call(public(ctx, Ig, D + "symmetry_pgr"), (A.copy(), letter))
+                explore_exits(ctx, "C13.pgr", f"symmetry_pgr({letter})", Ig, 0, lambda: Interp(ctx.program),
+                              lambda I_, letter=letter: I_.call(public(ctx, I_, D + "symmetry_pgr"), (A.copy(), letter)), ref, loc, what="(P, G, R)")
             else:
                 v = [vec[i][2] for i in range(3)]
                 nrm = Sqrt(sum((x * x for x in v), ZERO))
